@@ -16,8 +16,9 @@ use cranelift_jit::{JITBuilder, JITModule};
 use cranelift_module::{FuncId, Linkage, Module};
 
 use crate::ebpf::{
-    self, Insn, BPF_ALU_OP_MASK, BPF_CLS_MASK, BPF_IND, BPF_JEQ, BPF_JGE, BPF_JGT, BPF_JLE, BPF_JLT, BPF_JMP32,
-    BPF_JNE, BPF_JSET, BPF_JSGE, BPF_JSGT, BPF_JSLE, BPF_JSLT, BPF_X, STACK_SIZE,
+    self, Insn, BPF_ALU_OP_MASK, BPF_CLS_MASK, BPF_IND, BPF_JEQ, BPF_JGE, BPF_JGT, BPF_JLE,
+    BPF_JLT, BPF_JMP32, BPF_JNE, BPF_JSET, BPF_JSGE, BPF_JSGT, BPF_JSLE, BPF_JSLT, BPF_X,
+    STACK_SIZE,
 };
 use crate::lib::*;
 
@@ -549,8 +550,11 @@ impl CraneliftCompiler {
                     let safe_rhs = bcx.ins().select(rhs_is_zero, one, rhs);
                     let div_res = bcx.ins().urem(lhs, safe_rhs);
 
-                    let res = bcx.ins().select(rhs_is_zero, lhs, div_res);
-                    self.set_dst32(bcx, &insn, res);
+                    // Modulo by zero leaves the destination register unchanged (all 64 bits).
+                    let div_res64 = bcx.ins().uextend(I64, div_res);
+                    let dst64 = self.insn_dst(bcx, &insn);
+                    let res = bcx.ins().select(rhs_is_zero, dst64, div_res64);
+                    self.set_dst(bcx, &insn, res);
                 }
                 ebpf::XOR32_IMM => {
                     // reg[_dst] = (reg[_dst] as u32             ^ insn.imm  as u32) as u64,
@@ -1028,9 +1032,7 @@ impl CraneliftCompiler {
         flags.set_endianness(Endianness::Little);
         let off = bcx.ins().iconst(self.isa.pointer_type(), offset as i64);
         let addr = bcx.ins().iadd(base, off);
-        let _old = bcx
-            .ins()
-            .atomic_rmw(ty, flags, AtomicRmwOp::Add, addr, val);
+        let _old = bcx.ins().atomic_rmw(ty, flags, AtomicRmwOp::Add, addr, val);
     }
 
     /// Inserts a bounds check for a memory access
